@@ -18,6 +18,13 @@ type smtRegex struct {
 	minLen      int
 	firstLit    string // literal prefix every match starts with ("" if none)
 	lastLit     string
+	parts       []rePart // top-level concatenation: capture groups, literals, other pieces
+}
+
+type rePart struct {
+	group int    // capture index (>0) when the piece is exactly a capture group
+	lit   string // literal text
+	re    string // SMT regex of any other piece
 }
 
 func (r *smtRegex) core() string { return r.body }
@@ -65,6 +72,16 @@ func regexToSMT(pat string) (*smtRegex, error) {
 		}
 		parts = append(parts, t)
 		out.minLen += reMinLen(s)
+	}
+	for i, sub := range subs {
+		switch {
+		case sub.Op == syntax.OpCapture:
+			out.parts = append(out.parts, rePart{group: sub.Cap})
+		case sub.Op == syntax.OpLiteral && sub.Flags&syntax.FoldCase == 0:
+			out.parts = append(out.parts, rePart{lit: string(sub.Rune)})
+		default:
+			out.parts = append(out.parts, rePart{re: parts[i]})
+		}
 	}
 	if len(subs) > 0 {
 		out.firstLit = reEdgeLit(subs[0], true)
